@@ -479,7 +479,7 @@ func init() {
 				},
 				Asserts: []string{"a fixed point is reached within the derived number of rounds", "no pod outside the desired set remains", "every desired ordinal has its pod", "once converged a reconcile issues no write", "status.readyReplicas equals spec.replicas"},
 				Covers:  []string{"converged and quiet"}, MaxSteps: 40_000_000},
-			{Name: "converge-without-history", Pkg: pkgCtl, Func: "VH_Converge", Quick: []int{1, 2, 1, oThreeRevs | oLeanPods | oNoHistory}, Thorough: []int{1, 2, 1, oThreeRevs | oLeanPods | oNoHistory},
+			{Name: "converge-without-history", Pkg: pkgCtl, Func: "VH_Converge", Quick: []int{1, 2, 1, oThreeRevs | oLeanPods | oNoHistory}, Thorough: []int{2, 2, 1, oThreeRevs | oLeanPods | oNoHistory},
 				Bounds: func(a []int) string {
 					return fmt.Sprintf("as above with revisionHistoryLimit 0 (history trimming runs in every reconcile, also while a held-back update leaves no pod at the update revision) and <=%d healthy pods of any revision", a[0])
 				},
@@ -510,7 +510,7 @@ func init() {
 				},
 				Asserts: []string{"a failed API call makes the reconcile report failure", "after the failure a fixed point is reached"},
 				Covers:  []string{"two calls failed in one reconcile"}, MaxSteps: 40_000_000},
-			{Name: "failure-compared-with-a-run-without-failures", Pkg: pkgCtl, Func: "VH_Fault", Quick: []int{1, 1, 0, oThreeRevs, 1, 0, 1, 1}, Thorough: []int{1, 1, 0, oThreeRevs, 1, 0, 1, 1},
+			{Name: "failure-compared-with-a-run-without-failures", Pkg: pkgCtl, Func: "VH_Fault", Quick: []int{1, 1, 0, oThreeRevs, 1, 0, 1, 1}, Thorough: []int{1, 1, 1, oThreeRevs, 2, 0, 1, 1},
 				Bounds: func(a []int) string {
 					return fmt.Sprintf("as 'failure' (one failing call, %d error kinds, <=%d pods of any phase/readiness/revision, replicas in [0,%d], <=%d slots); the same start state is also run without failures and the two final states are compared: pods, their revisions, claims, status counters and revisions", a[4], a[0], a[1], a[2])
 				},
